@@ -8,8 +8,9 @@ package postgres
 // socket `<private temp dir>/.s.PGSQL.5432`. The real pgx/pgxpool + adapter code run against
 // it. What the server answers is decided by the shared scripted engine (c18Core, pg=true):
 // as in PostgreSQL an error inside a transaction block puts the block into the aborted state
-// (every further statement is refused with 25P02 until ROLLBACK / ROLLBACK TO SAVEPOINT, and
-// COMMIT of an aborted block answers ROLLBACK).
+// (every further statement is refused with 25P02 until ROLLBACK / ROLLBACK TO SAVEPOINT of an
+// established savepoint, and COMMIT of an aborted block answers ROLLBACK). Failed statements are
+// answered with the SQLSTATE of c18WireErr (40P01 deadlock, 23503 foreign key, 57014 cancel, ...).
 
 import (
 	"fmt"
@@ -186,12 +187,6 @@ func (s *c18Srv) serve(c net.Conn) {
 			switch rep.Res {
 			case "drop":
 				return
-			case "err":
-				send(&pgproto3.ErrorResponse{Severity: "ERROR", Code: "XX000", Message: "injected failure"}, rfq)
-			case "dup":
-				send(&pgproto3.ErrorResponse{Severity: "ERROR", Code: "23505", Message: "duplicate key value violates unique constraint \"x\""}, rfq)
-			case "aborted":
-				send(&pgproto3.ErrorResponse{Severity: "ERROR", Code: "25P02", Message: "current transaction is aborted, commands ignored until end of transaction block"}, rfq)
 			case "rolledback":
 				send(&pgproto3.CommandComplete{CommandTag: []byte("ROLLBACK")}, rfq)
 			case "rows":
@@ -228,6 +223,11 @@ func (s *c18Srv) serve(c net.Conn) {
 				msgs = append(msgs, &pgproto3.CommandComplete{CommandTag: []byte(tag)}, rfq)
 				send(msgs...)
 			default:
+				// a failed statement: the SQLSTATE a PostgreSQL server sends for this kind of failure
+				// (XX000 generic, 23505 unique, 40P01 deadlock, 23503 foreign key, 57014 cancel,
+				// 25P02 aborted block, 3B001 unknown savepoint, 25P01 not in a transaction block)
+				send(&pgproto3.ErrorResponse{Severity: "ERROR", Code: c18WireErr(true, rep.Res).State, Message: c18WireErr(true, rep.Res).Msg}, rfq)
+			case "ok":
 				tag := rep.Verb
 				switch rep.Verb {
 				case "INSERT":
